@@ -42,7 +42,7 @@ def run(tier, selftest):
     traces, steps, init = (400, 100, 20) if thorough else (16, 30, 10)
     tp = os.path.join(vlib.scratch(), "sort_trace.ndjson")
     rc, lines, err = vlib.run_harness(binp, ["placement-record", "--seed", vlib.seed() + 1000, "--traces", traces, "--steps", steps,
-                                             "--init", init, "--extras", 1, "--sortprob", 20, "--out", tp], timeout=900)
+                                             "--init", init, "--sortprob", 20, "--out", tp], timeout=900)
     if rc != 0:
         vlib.tool_error(f"placement-record failed: {err[-500:]}")
     import json
@@ -50,6 +50,28 @@ def run(tier, selftest):
         evs = [json.loads(l) for l in f if l.strip()]
     nsort_tr = sum(1 for e in evs if e["ev"] == "sort")
     acc_ev, acc_tr, rej = c15.validate_trace(tp, rep)
+    # files that also hold optional singletons, IF_DATA and USER_RIGHTS (outside the implementation-shaped model, whose uid
+    # compaction therefore differs from the code's): judged by the relations of the property alone
+    tpx = os.path.join(vlib.scratch(), "sort_trace_extras.ndjson")
+    rc, lines, err = vlib.run_harness(binp, ["placement-record", "--seed", vlib.seed() + 2000, "--traces", traces, "--steps", min(steps, 40),
+                                             "--init", init, "--extras", 1, "--sortprob", 20, "--out", tpx], timeout=900)
+    if rc != 0:
+        vlib.tool_error(f"placement-record (extras) failed: {err[-500:]}")
+    with open(tpx) as f:
+        xev = [json.loads(l) for l in f if l.strip()]
+    nsort_tr += sum(1 for e in xev if e["ev"] == "sort")
+    while xev:
+        ok, irej = c15.ideal_accepts(xev)
+        if ok:
+            break
+        d = irej[0]
+        start = max(i for i in range(d) if xev[i]["ev"] == "load")
+        end = next((i for i in range(d, len(xev)) if xev[i]["ev"] == "load"), len(xev))
+        bad = xev[d - 1]
+        rep.violation(f"placement:{bad['ev']}:{'panic' if bad.get('panic') else 'order-all-children'}",
+                      f"history on a module with singletons / IF_DATA / USER_RIGHTS violates the relations of C14 / C15 (Trace_PlacementIdeal rejects event {d}: {json.dumps({k: bad[k] for k in bad if k != 'lists'})[:300]})",
+                      {"kind": "history", "events": xev[start:end]})
+        xev = xev[end:]
 
     binding = None
     if selftest or thorough:
